@@ -196,6 +196,8 @@ def run(ctx):
         ctx.count("churn_lattices")
         del l
         gc.collect()
+    core.history_check(ctx, "import numpy as np\nfrom koala import example_graphs as eg, voronization as vz, graph_utils as gu, quasicrystals as qc, phase_diagrams as pdg, hamiltonian as ham\nfrom koala.flux_finder import flux_finder as ff\n\ndef _canon(l):\n    parts = [l.vertices.positions.ravel(), l.edges.indices.ravel().astype(float), l.edges.crossing.ravel().astype(float)]\n    return np.concatenate(parts)\ndef _plaq(l):\n    out = []\n    for p in l.plaquettes:\n        out += [float(len(p.edges))] + [float(x) for x in p.edges] + [float(x) for x in p.directions] + [float(x) for x in p.vertices] + [float(x) for x in p.center]\n    return np.array(out)\n_pts = np.random.default_rng(123).uniform(size=(14, 2))\n", ["ff.fluxes_from_ujk(vz.generate_lattice(_pts), 1 - 2 * (np.arange(42) % 3 == 0))", "ff.fluxes_from_ujk(eg.honeycomb_lattice(3), np.ones(54, dtype=int), real=False)"],
+                       label="flux call")
     ctx.assumptions.append("numpy integer/complex products of ±1 and ±i are exact")
 
 
